@@ -32,6 +32,14 @@ FAMILIES = [
     ([["A", "mnk"], ["B", "k"]], "m"),         # 3-index operand, two reductions
 ]
 
+# three operands co-iterated on one rank (used by C06 only: the trace oracles of C15/C16 assume two per level)
+FAMILIES3 = [
+    ([["A", "k"], ["B", "k"], ["C", "k"]], ""),       # triple dot product
+    ([["A", "mk"], ["B", "k"], ["C", "k"]], "m"),     # matrix times two vectors
+    ([["A", "mk"], ["B", "mk"], ["C", "k"]], "m"),    # two matrices and a vector
+    ([["A", "m"], ["B", "m"], ["C", "m"], ["D", "m"]], "m"),    # four-way element-wise product
+]
+
 
 def rid(v):
     return v.upper()
